@@ -51,6 +51,10 @@ class Wide (α : Type) where
   /-- `f32::MIN` -/
   fmin : α
   isNaN : α → Bool
+  /-- `f32::sqrt` (used by `Vector::length` in `handle_coincident_edges_below`, lyon 748da73e) -/
+  sqrt : α → α
+  /-- `f32::EPSILON` (vertex-on-edge threshold, lyon 9151b7de) -/
+  eps : α
 
 attribute [instance_reducible, instance] Wide.scalarW Wide.sgnW
 
@@ -70,6 +74,8 @@ instance : Wide Float32 where
   nextUp := f32NextUp
   fmin := Float32.ofBits 0xff7fffff
   isNaN := Float32.isNaN
+  sqrt := Float32.sqrt
+  eps := Float32.ofBits 0x34000000
 
 variable {α : Type} [Scalar α] [Wide α]
 
@@ -213,6 +219,10 @@ def emitTris (tris : List Mono.Tri) : SM α Unit :=
 
 /-! ### step 1: `scan_active_edges` -/
 
+/-- `self.tolerance.max(current_x.abs() * 2.0 * f32::EPSILON)` (lyon 9151b7de): the tolerance
+cannot be finer than what `f32` resolves at the magnitude of the current abscissa -/
+def onEdgeThreshold (tol x : α) : α := Scalar.max tol (abs x * two * Wide.eps (α := α))
+
 /-- the `edge_is_before_current_point` block: `(is_before, sets connecting_edges)` -/
 def edgeBefore (cur : P α) (tol : α) (e : ActiveEdge α) : Bool × Bool :=
   if cur == e.to then (false, true)
@@ -221,12 +231,13 @@ def edgeBefore (cur : P α) (tol : α) (e : ActiveEdge α) : Bool × Bool :=
   else if e.from_.y == e.to.y then (false, true)
   else
     let ex := e.solveXForY cur.y
-    if abs (ex - cur.x) ≤ tol then (false, true)
+    if abs (ex - cur.x) ≤ onEdgeThreshold tol cur.x then (false, true)
     else if ex > cur.x then (false, false)
     else (true, false)
 
 /-- `is_edge_connecting`: `(connects, pushed to edges_to_split)` -/
-def isEdgeConnecting (cur : P α) (tol : α) (e : ActiveEdge α) : Except IErr (Bool × Bool) :=
+def isEdgeConnecting (cur : P α) (tol0 : α) (e : ActiveEdge α) : Except IErr (Bool × Bool) :=
+  let tol := onEdgeThreshold tol0 cur.x
   if cur == e.to then .ok (true, false)
   else if e.maxX + tol < cur.x ∨ e.to.y < cur.y then .error (.order 4)
   else if e.minX > cur.x then .ok (false, false)
@@ -447,7 +458,14 @@ def handleCoincidentEdgesBelow : SM α Unit := do
       let close : Bool :=
         if abs aS ≤ (one : α) then decide (abs (aS - bS) < ofSci 5 5)
         else decide (abs (one / aS - one / bS) < ofSci 5 5)
-      if close then mergeCoincidentEdges idx (idx+1)
+      -- lyon 748da73e: only merge when the end of the shorter edge is within the tolerance of the longer one
+      let gt := match comparePositions a.to b.to with | .gt => true | _ => false
+      let shortTo := if gt then b.to else a.to
+      let longTo := if gt then a.to else b.to
+      let v := longTo - s.curPos
+      let endsClose : Bool :=
+        decide (abs (v.cross (shortTo - s.curPos)) ≤ s.tolerance * Wide.sqrt (v.x * v.x + v.y * v.y))
+      if close && endsClose then mergeCoincidentEdges idx (idx+1)
     | _, _ => throw (.panic "edge below index out of range")
 
 /-- `split_event(left_enclosing_edge_idx, left_span_idx)` -/
